@@ -231,10 +231,10 @@ func partA(r *vlib.Run) {
 	defer w.close()
 	slots := [][2]int{{0, 0}, {0, 1}, {1, 0}, {1, 1}}
 	fees := []uint64{40000, 90000, 200000}
-	scripts := []byte{0, 1, 6}
+	scripts := []byte{0, 1, 3, 6}
 	pads := []int{0, 120}
 	if !r.Thorough() {
-		scripts = []byte{0, 1}
+		scripts = []byte{0, 1, 3}
 	}
 	variants := []ptx{}
 	for _, f := range fees {
@@ -331,96 +331,109 @@ func partB(r *vlib.Run) {
 		{{0, 0, 100000, 0, 0}, {2, 0, 90000, 9, 0}, {1, 0, 80000, 0xEE, 0}},
 		// a transaction that verifies but executes as invalid while reporting events: skipped, nothing of it in the roots
 		{{0, 0, 100000, 6, 0}, {1, 0, 90000, 0, 0}},
+		// a transaction whose verification answers "pending" (nonce ahead of the account): skipped with its sender
+		{{0, 0, 100000, 3, 0}, {0, 1, 95000, 0, 0}, {1, 0, 90000, 0, 0}},
 		{{0, 0, 100000, 0, 0}, {0, 1, 90000, 6, 0}, {1, 0, 50000, 0, 0}},
 	}
-	for prefix := 0; prefix <= 5; prefix++ {
-		for pi, pool := range pools {
-			for _, withCerts := range []bool{false, true} {
-				cfg := node.MenuConfig()
-				w := newWorld(cfg, nil)
-				ok := true
-				// prefix: blocks of the other validator come from the fixture's forger, blocks of the generator's own
-				// validator from the generator itself (its database must know every header it signed)
-				for i := 0; i < prefix && ok; i++ {
-					if i%2 == 0 {
-						s := w.nextSlotOf(1)
-						tipSlot := w.n.Slot.GetSlotNumber(w.n.Tip().Header.Timestamp)
-						sh := node.MenuShape([]int{0, 2, 0, 1, 0}[i], w.n.Tip().Header.Height+1, 0)
-						sh.SkipSlots = s - tipSlot - 1
-						if _, err := w.n.Apply(sh); err != nil {
-							ok = false
-						}
-					} else {
-						b := w.forge()
-						if b == nil || b.Validate() != nil || w.n.Exec.VerifProcessValidated(b, false) != nil {
-							ok = false
+	for _, firstShape := range []int{0, 5} { // 5: the first block re-weights the validators (new BFT parameters from the next height)
+		for prefix := 0; prefix <= 7; prefix++ {
+			if firstShape == 0 && prefix > 5 {
+				continue
+			}
+			if firstShape == 5 && prefix == 0 {
+				continue
+			}
+			for pi, pool := range pools {
+				if firstShape == 5 && pi > 1 {
+					continue // the parameter-change prefixes are about the aggregate commit: empty and one-transaction pools
+				}
+				for _, withCerts := range []bool{false, true} {
+					cfg := node.MenuConfig()
+					w := newWorld(cfg, nil)
+					ok := true
+					// prefix: blocks of the other validator come from the fixture's forger, blocks of the generator's own
+					// validator from the generator itself (its database must know every header it signed)
+					for i := 0; i < prefix && ok; i++ {
+						if i%2 == 0 {
+							s := w.nextSlotOf(1)
+							tipSlot := w.n.Slot.GetSlotNumber(w.n.Tip().Header.Timestamp)
+							sh := node.MenuShape([]int{firstShape, 2, 0, 1, 0, 0, 0, 0}[i], w.n.Tip().Header.Height+1, 0)
+							sh.SkipSlots = s - tipSlot - 1
+							if _, err := w.n.Apply(sh); err != nil {
+								ok = false
+							}
+						} else {
+							b := w.forge()
+							if b == nil || b.Validate() != nil || w.n.Exec.VerifProcessValidated(b, false) != nil {
+								ok = false
+							}
 						}
 					}
-				}
-				if !ok {
+					if !ok {
+						w.close()
+						continue
+					}
+					desc := []string{}
+					for _, p := range pool {
+						sc := []byte{p.script}
+						if p.script == 9 {
+							sc = []byte{9, 0}
+						}
+						t := node.MakeTx(cfg.ChainID, node.TxSpec{Sender: p.sender, Nonce: p.nonce + uint64(prefix)*10, Fee: p.fee, Script: append(sc, make([]byte, p.pad)...)})
+						w.pool.Add(t)
+						desc = append(desc, p.String())
+					}
+					// promote so that the generator sees them as processable
+					w.pool.VerifReorg()
+					if withCerts {
+						_, pre, cert := w.n.BFTHeights()
+						for h := cert + 1; h <= pre; h++ {
+							hd, err := w.n.Chain.DataAccess().GetBlockHeaderByHeight(h)
+							if err != nil {
+								continue
+							}
+							for _, v := range []int{0, 1} {
+								k := node.KeysOf(v)
+								w.n.Exec.VerifPool().Add(certificate.NewSingleCommit(hd, k.Address, cfg.ChainID, k.BLSPriv))
+							}
+						}
+					}
+					c := caseT{Part: "b", Pool: desc, Ops: []string{fmt.Sprintf("prefix=%d certs=%v pool#%d", prefix, withCerts, pi)}}
+					r.Add("forge_attempts", 1)
+					var b *blockchain.Block
+					if p := vlib.Catch(func() { b = w.forge() }); p != "" {
+						r.Violation("forge-panics", fmt.Sprintf("forge panics with pool %v after %d blocks: %s", desc, prefix, p), c)
+						w.close()
+						continue
+					}
+					if b == nil {
+						r.Violation("forge-produces-nothing", fmt.Sprintf("forge produced no block in the generator's own slot (pool %v, %d blocks, certs %v)", desc, prefix, withCerts), c)
+						w.close()
+						continue
+					}
+					r.Add("blocks_forged", 1)
+					if !b.Header.AggregateCommit.Empty() {
+						r.Add("blocks_forged_with_aggregate_commit", 1)
+					}
+					r.Add("transactions_in_forged_blocks", int64(len(b.Transactions)))
+					err := b.Validate()
+					if err == nil {
+						err = w.n.Exec.VerifProcessValidated(b, false)
+					}
+					if err != nil {
+						key := "forged-block-rejected"
+						for _, t := range b.Transactions {
+							if len(t.Params) > 0 && t.Params[0] == 9 {
+								key = "forged-block-rejected:validator-change"
+							}
+						}
+						r.Violation(key, fmt.Sprintf("the block the generator produced is rejected by the same node: %v (pool %v, %d blocks before, certs %v)", err, desc, prefix, withCerts), c)
+					}
+					if len(w.n.App.Faults) > 0 {
+						r.Violation("app-misuse", w.n.App.Faults[0], c)
+					}
 					w.close()
-					continue
 				}
-				desc := []string{}
-				for _, p := range pool {
-					sc := []byte{p.script}
-					if p.script == 9 {
-						sc = []byte{9, 0}
-					}
-					t := node.MakeTx(cfg.ChainID, node.TxSpec{Sender: p.sender, Nonce: p.nonce + uint64(prefix)*10, Fee: p.fee, Script: append(sc, make([]byte, p.pad)...)})
-					w.pool.Add(t)
-					desc = append(desc, p.String())
-				}
-				// promote so that the generator sees them as processable
-				w.pool.VerifReorg()
-				if withCerts {
-					_, pre, cert := w.n.BFTHeights()
-					for h := cert + 1; h <= pre; h++ {
-						hd, err := w.n.Chain.DataAccess().GetBlockHeaderByHeight(h)
-						if err != nil {
-							continue
-						}
-						for _, v := range []int{0, 1} {
-							k := node.KeysOf(v)
-							w.n.Exec.VerifPool().Add(certificate.NewSingleCommit(hd, k.Address, cfg.ChainID, k.BLSPriv))
-						}
-					}
-				}
-				c := caseT{Part: "b", Pool: desc, Ops: []string{fmt.Sprintf("prefix=%d certs=%v pool#%d", prefix, withCerts, pi)}}
-				r.Add("forge_attempts", 1)
-				var b *blockchain.Block
-				if p := vlib.Catch(func() { b = w.forge() }); p != "" {
-					r.Violation("forge-panics", fmt.Sprintf("forge panics with pool %v after %d blocks: %s", desc, prefix, p), c)
-					w.close()
-					continue
-				}
-				if b == nil {
-					r.Violation("forge-produces-nothing", fmt.Sprintf("forge produced no block in the generator's own slot (pool %v, %d blocks, certs %v)", desc, prefix, withCerts), c)
-					w.close()
-					continue
-				}
-				r.Add("blocks_forged", 1)
-				if !b.Header.AggregateCommit.Empty() {
-					r.Add("blocks_forged_with_aggregate_commit", 1)
-				}
-				r.Add("transactions_in_forged_blocks", int64(len(b.Transactions)))
-				err := b.Validate()
-				if err == nil {
-					err = w.n.Exec.VerifProcessValidated(b, false)
-				}
-				if err != nil {
-					key := "forged-block-rejected"
-					for _, t := range b.Transactions {
-						if len(t.Params) > 0 && t.Params[0] == 9 {
-							key = "forged-block-rejected:validator-change"
-						}
-					}
-					r.Violation(key, fmt.Sprintf("the block the generator produced is rejected by the same node: %v (pool %v, %d blocks before, certs %v)", err, desc, prefix, withCerts), c)
-				}
-				if len(w.n.App.Faults) > 0 {
-					r.Violation("app-misuse", w.n.App.Faults[0], c)
-				}
-				w.close()
 			}
 		}
 	}
